@@ -160,8 +160,11 @@ package pair
 //@   modifies s.EncryptionKey
 //@   ensures err == nil && seq(s.EncryptionKey) == hkdf(old(seq(s.SharedKey)), old(seq(salt)), old(seq(info)))
 
+// every exchange has an ephemeral key pair of its own: the private key is a fresh draw of the random source
 //@ func NewVerifySession() (s)
+//@   modifies randcount
 //@   ensures fresh(s) && seq(s.PublicKey) == x25519_base(seq(s.PrivateKey))
+//@   ensures ephemeral: seq(s.PrivateKey) == randtoken(old(randcount()), 32) && randcount() == old(randcount()) + 1
 
 // In state StartResponse (2) the session holds this exchange's controller key A, the shared secret X25519(priv, A) and
 // the message key derived from it; B = X25519_base(priv) always.
@@ -175,6 +178,7 @@ package pair
 
 //@ func NewVerifyServerController(database, context) (v)
 //@   requires database != nil && context != nil
+//@   modifies randcount
 //@   ensures fresh(v) && verifyInv(v)
 
 //@ func (verify *VerifyServerController) reset()
